@@ -39,9 +39,11 @@ struct KInt {
   static const char* name() { return "int"; }
 };
 static String g_strTab[MAXU];
+static String g_strView[MAXU]; static char g_viewBuf[MAXU * 72 + 8]; static bool g_viewsReady = false;
 struct KStr {
   typedef String K;
-  static const String& make(int i) { return g_strTab[i]; }
+  // every third request hands out an equal String in another representation: attached, not zero terminated, a non-zero byte behind it
+  static const String& make(int i) { static unsigned c = 0; return (g_viewsReady && ++c % 3 == 0) ? g_strView[i] : g_strTab[i]; }
   static int index(const String& k) { for (int i = 0; i < MAXU; ++i) if (g_strTab[i].length() == k.length() && !memcmp((const char*)g_strTab[i], (const char*)k, k.length())) return i; return -1; }
   static const char* name() { return "String"; }
 };
@@ -307,6 +309,7 @@ static void setupKeys(Rng& r, int keyFamily, int universe, usize capA, Text& h) 
       else { int len = i; if (len > 60) len = 60; for (int j = 0; j < len; ++j) tmp[j] = (char)('a' + i % 3); tmp[len] = 0; }   // "", "b", "cc", ...
       g_strTab[i] = String(tmp, strlen(tmp));
     }
+    { size_t at = 0; g_viewBuf[at++] = '#'; for (int i = 0; i < MAXU; ++i) { size_t len = g_strTab[i].length(); memcpy(g_viewBuf + at, (const char*)g_strTab[i], len); g_strView[i].attach(g_viewBuf + at, len); at += len; g_viewBuf[at++] = (char)('!' + i % 90); } g_viewsReady = true; }
     h.addf("# String keys, style %s\n", sn[style]); setItem("key_families", sn[style]);
   } else {
     long stride; const char* sn;
@@ -495,7 +498,7 @@ int main(int argc, char** argv) {
   else harnessBug("unknown mode %s", m);
   cnt("structure_walks", g_walks); cnt("chain_items_walked", g_chainItems);
   for (int i = 1; i <= MAXU + 1; ++i) if (g_chainLenSeen[i]) { char t[16]; snprintf(t, sizeof t, "%d", i); setItem("chain_lengths", t); }
-  for (int i = 0; i < MAXU; ++i) g_strTab[i] = String();
+  g_viewsReady = false; for (int i = 0; i < MAXU; ++i) { g_strTab[i] = String(); g_strView[i] = String(); }
   leakCheck("Hash/leak");
   finish();
   return 0;
